@@ -8,7 +8,7 @@ from concurrent.futures import ThreadPoolExecutor
 
 VERIF = os.path.dirname(os.path.dirname(os.path.abspath(__file__)))
 REPO = os.environ.get("VERIF_REPO", "/repo")
-CACHE = os.path.join(VERIF, ".cache")
+CACHE = os.environ.get("VERIF_CACHE") or os.path.join(VERIF, ".cache")
 DRIVER = os.path.join(VERIF, "mirfacts", "target", "release", "mirfacts")
 
 CURVE_FULL = ["serde", "group-bits", "digest", "rand_core"]
